@@ -6,7 +6,8 @@ import Gonuts.Model.Select
   Encodings: proof `(amount ks uid)`; mint `(activeId activePpk ((id ppk) …))`; sorter `stable` or
   `(oracle uid …)` (the order in which the implementation picked the proofs); view = what is printed of a
   selection: `uid` (uids in selection order), `ak` (`(amount ks)` pairs in selection order), `a` (amounts in
-  selection order), `set` (uids sorted), `kind` (only ok / which error).
+  selection order), `set` (uids sorted), `akset` (`(amount ks)` pairs sorted by keyset, amount), `aset`
+  (amounts sorted), `kind` (only ok / which error).
 -/
 namespace Gonuts.Model.SelectDriver
 open Gonuts Gonuts.Model Gonuts.Model.Select
@@ -46,6 +47,10 @@ def viewProofs (view : String) (ps : List P) : Option Sexp :=
   | "ak" => some (Sexp.list (ps.map (fun p => Sexp.list [ofU64 p.amount, Sexp.ofNat p.ks])))
   | "a" => some (ofU64s (amounts ps))
   | "set" => some (Sexp.ofNats (sortBy (fun a b => decide (a ≤ b)) (ps.map (·.uid))))
+  | "akset" =>
+    let sorted := sortBy (fun (a b : P) => decide (a.ks < b.ks) || (a.ks == b.ks && a.amount ≤ b.amount)) ps
+    some (Sexp.list (sorted.map (fun p => Sexp.list [ofU64 p.amount, Sexp.ofNat p.ks])))
+  | "aset" => some (ofU64s (sortU64 (amounts ps)))
   | "kind" => some (Sexp.list [])
   | _ => none
 
